@@ -295,8 +295,15 @@ REG['C14'] = {
     'design_ref': '5/C14',
     'technique': 'Verus on SolarWeek::next and LunarWeek::next extracted verbatim (both loops each) + exhaustive execution of the week contract over every civil month x 7 week starts and every lunar month',
     'level_text': 'Deductive part: SolarWeek::next moves the first day by exactly 7n for every week, every n and any month-length / first-weekday tables consistent with consecutive months (Verus, real loops). Leaf part (exhaustive execution): for every civil month 0001-02..9999-11 and every lunar month, 7 week starts, all indices: count == number of rows, first day on the chosen weekday at day1 + 7*index - offset, 7 consecutive days, coverage, refusal of index == count; week of a date contains it; index in year.',
-    'level_note': 'week count uses an f64 ceil (outside Verus): its contract ceil((offset+len)/7) is a leaf checked for every month; LunarWeek::next is verified over an abstract tiling lunar month table (L-NEW)',
-    'functions': ['SolarWeek::next', 'SolarMonth::get_week_count (leaf)', 'SolarWeek::new / get_first_day / get_days / get_index_in_year (leaf)', 'SolarDay::get_solar_week (leaf)', 'LunarWeek::* (leaf)', 'LunarMonth::get_week_count (leaf)'],
+    'level_note': 'week count uses an f64 ceil (outside Verus): its contract ceil((offset+len)/7), assumed by the Verus unit, is proved by Kani on the real body (c14_k_*_week_count) and also executed for every month; the weekday of the first of the month is an arbitrary answer in those harnesses (the weekday formula itself is c07_k_week); LunarWeek::next is verified over an abstract tiling lunar month table (L-NEW)',
+    'functions': ['SolarWeek::next', 'LunarWeek::next', 'SolarMonth::get_week_count', 'LunarMonth::get_week_count', 'SolarWeek::get_first_day', 'LunarWeek::get_first_day', 'SolarDay::get_solar_week', 'SolarWeek::new / get_days / get_index_in_year (leaf)', 'LunarWeek::new / get_days (leaf)'],
+    'K': [
+        dict(id='c14_k_solar_week_count', fn='SolarMonth::get_week_count', clause='== ceil((offset of the first of the month in its week + month length) / 7) through the f64 ceil, every month, week start and (arbitrary) weekday of the first'),
+        dict(id='c14_k_solar_week_first_day', fn='SolarWeek::get_first_day', clause='steps 7*index - offset days from the first of the month (day step recorded)'),
+        dict(id='c14_k_day_to_week', fn='SolarDay::get_solar_week', clause='week index == floor((days since the first + offset) / 7) of the same month and start, every valid date'),
+        dict(id='c14_k_lunar_week_count', fn='LunarMonth::get_week_count', clause='same as the civil count for 29/30-day months'),
+        dict(id='c14_k_lunar_week_first_day', fn='LunarWeek::get_first_day', clause='steps 7*index - offset days from day 1 of the same lunar month (leap flag kept)'),
+    ],
     'V': [
         dict(id='c14_week_step', template='verus/c14_week_step.rs', twin_quick=True,
              twin=[('r.first() == self.first() + 7 * n,', 'r.first() == self.first() + 7 * n + 7,')],
@@ -315,7 +322,12 @@ REG['C15'] = {
     'technique': 'Verus on get_nine_day / get_dog_day / get_plum_rain_day / get_phenology_day extracted verbatim against spec functions over an uninterpreted term-day table and the day pillar; exhaustive execution incl. the commanding-stem allotment table',
     'level_text': 'Deductive part (Verus, real function bodies, any monotone term table): Nines = the 81 days from the winter-solstice day in nines and no other day; Dog days from the third Geng on/after the summer solstice with the 10/20-day middle period decided by the fifth Geng vs start-of-autumn; Plum rains from the first Bing on/after Grain-in-Ear to the first Wei on/after Slight Heat; pentads 0-4 / 5-9 / 10+. Leaf part (exhaustive execution over every civil date 0002..9998): the same four series plus the commanding stem against the classical allotment table re-encoded independently.',
     'level_note': 'get_hide_heaven_stem_day parses a packed digit string with str slicing (outside Verus): exhaustive execution only; callee contracts: term days (L-TD), pillar of a day (C07), steps_to (C11), SolarDay::next/subtract (C01)',
-    'functions': ['SolarDay::get_nine_day', 'SolarDay::get_dog_day', 'SolarDay::get_plum_rain_day', 'SolarDay::get_phenology_day', 'SolarDay::get_hide_heaven_stem_day (leaf)'],
+    'functions': ['SolarDay::get_nine_day', 'SolarDay::get_dog_day', 'SolarDay::get_plum_rain_day', 'SolarDay::get_phenology_day', 'LoopTyme::steps_to', 'Into<LoopTyme> for HeavenStem / EarthBranch', 'SolarDay::get_hide_heaven_stem_day (leaf)'],
+    'K': [
+        dict(id='c15_k_steps_to', prefix=True, min_count=2, fn='LoopTyme::steps_to', clause='== (target - index) mod size for table sizes 10 and 12, every index and |target| < 2^31 (the steps_to contract of the Verus unit)'),
+        dict(id='c15_k_into_loop_stem', fn='Into<LoopTyme> for HeavenStem', clause='keeps the index, size 10 (the verif_into contract of the Verus unit, extraction rule E9)'),
+        dict(id='c15_k_into_loop_branch', fn='Into<LoopTyme> for EarthBranch', clause='keeps the index, size 12'),
+    ],
     'V': [
         dict(id='c15_series', template='verus/c15_series.rs', twin_quick=True,
              twin=[('nine_spec(self.jdn(), TD(24 * self.y() + 24), TD(24 * self.y())),', 'nine_spec(self.jdn() + 1, TD(24 * self.y() + 24), TD(24 * self.y())),')],
